@@ -393,7 +393,7 @@ func (c *Ctx) Numeric(t *rapid.T, kind model.Kind, pos Pos) *model.Node {
 	return n
 }
 
-var enumStrings = []string{"", "a", "A", "b", "foo", "Foo", "foo bar", "foo_bar", "foo-bar", "1", "true", "null", "é", "日本", "x y", " a", "a ", "42x", "%d", `q"q`, `b\s`}
+var enumStrings = []string{"2024-06-30", "7e3", "12e4", "1e2", "0x1F", "", "a", "A", "b", "foo", "Foo", "foo bar", "foo_bar", "foo-bar", "1", "true", "null", "é", "日本", "x y", " a", "a ", "42x", "%d", `q"q`, `b\s`}
 
 func (c *Ctx) Enum(t *rapid.T) *model.Node {
 	p := c.P
